@@ -255,6 +255,30 @@ def run(ctx, chk):
     check_refusal_justified(chk, "C05.refusal-justified", prog, eff)
     import rules as _r5
     _r5.check_no_bypass(chk, "C05.no-bypass", prog)
+    chk.rule("C05.blocks", "the failure arm of every constructor is clean: each raw block is attached / returned / handed over / freed "
+                           "exactly once on every path and never read again after it was freed (shared with C06.blocks) - a refused "
+                           "second allocation yields NULL and nothing else")
+    from props.c06 import check_blocks
+    check_blocks(chk, "C05.blocks", prog, cache_, floor=26)
+    chk.rule("C05.record-items", "the item a decoding-stack record carries is released (cbor_decref) or handed on (stored into its parent / the "
+             "context) on every path that unlinks the record: otherwise the partially built item and every block attached to it "
+             "never reach the installed free (a failed load leaves nothing allocated)")
+    from props.c06 import check_record_items
+    check_record_items(chk, "C05.record-items", prog, eff)
+    chk.rule("C05.insert-refusal", "the insertion routines the builder relies on refuse only when an allocation failed, an overflow guard answered "
+             "false or a definite container is full - MEMERROR is never manufactured below the builder (shared with C12.refusal-justified)")
+    from props.c12 import check_insert_refusal
+    import ownership as _Oir
+    check_insert_refusal(chk, "C05.insert-refusal", prog, eff, _Oir.PathCache(prog, eff))
+    chk.rule("C05.no-access-after-free", "on every path of every library function (unit-internal helpers and the stack module inlined) no load or "
+             "store addresses a block after it was handed to the installed free, and no block is handed to it twice (a failed load behaves the same under every conforming allocator)")
+    from props.c06 import check_no_access_after_free
+    check_no_access_after_free(chk, "C05.no-access-after-free", prog, eff)
+    chk.rule("C05.capacity-field", "a declared count that cannot be stored is refused, not wrapped: the block installed as a container's "
+             "storage is requested with exactly the element count recorded as its capacity, through the guarded multiply "
+             "(shared with C12.capacity-field; `2 * n` slots of half the size wraps before the guard sees it)")
+    from props.c12 import check_capacity_field
+    check_capacity_field(chk, "C05.capacity-field", prog, eff, cache_)
     chk.exhaustive = True
 
 
